@@ -325,9 +325,19 @@ class _PatchingASTWalker:
         for decorator in node.decorator_list:
             children.extend(("@", decorator))
         children.extend(["class", node.name])
-        if node.bases:
+        type_params = getattr(node, "type_params", [])
+        if type_params:
+            children.extend(["[", *self._child_nodes(type_params, ","), "]"])
+        if node.bases or node.keywords:
+
+            def _position(base):
+                if isinstance(base, ast.keyword):
+                    return (base.value.lineno, base.value.col_offset)
+                return (base.lineno, base.col_offset)
+
+            arguments = sorted([*node.bases, *node.keywords], key=_position)
             children.append("(")
-            children.extend(self._child_nodes(node.bases, ","))
+            children.extend(self._child_nodes(arguments, ","))
             children.append(")")
         children.append(":")
         children.extend(node.body)
@@ -858,7 +868,10 @@ class _PatchingASTWalker:
         self._handle(node, children)
 
     def _TypeAlias(self, node):
-        children = ["type", node.name, node.value]
+        children = ["type", node.name]
+        if node.type_params:
+            children.extend(["[", *self._child_nodes(node.type_params, ","), "]"])
+        children.append(node.value)
         self._handle(node, children)
 
     def _TypeVar(self, node):
